@@ -100,6 +100,8 @@ def run_shard(job):
     known_findings = _F0.load()
     indices = job.get("indices")
     it = indices if indices is not None else range(w, n, K)
+    if job.get("reverse"):
+        it = list(it)[::-1]  # self-test: a run's event log must not depend on which runs preceded it in the process
     if hasattr(mod, "setup_worker"):
         mod.setup_worker(job)
     for i in it:
